@@ -62,7 +62,7 @@ impl BasePath {
     fn relative_to_full_path(&self, url: &str) -> Url {
         Url::parse(&self.base_path)
             .unwrap()
-            .join(&format!("{}.md", url.trim_end_matches(".md")))
+            .join(&format!("{}.md", url.strip_suffix(".md").unwrap_or(url)))
             .expect("to work")
     }
 
